@@ -89,6 +89,8 @@ def original_case(value: str, **kwargs: Any) -> str:
     """Return the input string but ensure it's a valid Python variable."""
     # Strip out all characters that are not alphanumeric or underscores
     value = re.sub(r"\W", "", value)
+    # Not all of them are allowed in python identifiers, e.g. superscripts
+    value = "".join(char for char in value if f"_{char}".isidentifier())
     # Then strip out leading digit and underscore characters
     return re.sub(r"^[^a-zA-Z_]+", "", value)
 
